@@ -31,7 +31,7 @@ Lemma BT_rules_change_gen root s s' : BT root s ->
   (In (dummy_root root) (is_inreq s') \/ (exists k, In (dummy_root root) (ri_paused (rinfo_of s' k))) \/ is_in_progress s' root = true \/ curk s' root) ->
   BT root s'.
 Proof.
-  intros [T1 T2 T3 T4 T5 T6 T7] Hu He Hfw Hbw Hst Hdp Hsg Hc1 Hc2 HU2 HU1 Hf Hft Hroot.
+  intros [T2 T3 T4 T5 T6 T7] Hu He Hfw Hbw Hst Hdp Hsg Hc1 Hc2 HU2 HU1 Hf Hft Hroot.
   assert (O2 : forall rq, Oreq2 s' rq -> Oreq2 s rq).
   { intros rq [H|[(t0 & z & Hz & Hin)|H]]; [left; auto| |right; right; now rewrite <- Hf].
     destruct (Hbw t0 z Hz) as (y & Hy & Hc). apply core2_fields in Hc. destruct Hc as (_ & _ & _ & Hr & _). right. left. exists t0, y. split; auto. now rewrite <- Hr. }
@@ -39,7 +39,6 @@ Proof.
   { intros rq [H|[(t0 & z & Hz & Hin)|H]] Hnd; [left; auto| |right; right; now rewrite Hf].
     destruct (Hfw t0 z Hz) as (y & Hy & Hc). apply core2_fields in Hc. destruct Hc as (_ & _ & _ & Hr & _). right. left. exists t0, y. split; auto. now rewrite Hr. }
   constructor.
-  - congruence.
   - congruence.
   - intros k Hc. rewrite Hst. destruct (Hc2 k Hc) as [H|H]; auto.
   - intros rq Ho. destruct (T4 rq (O2 rq Ho)) as [Hw Hsg']. split; auto. intros t Hk Hor. destruct (Hw t Hk Hor) as (H1 & ti & Hg & Hl). split; auto.
